@@ -430,4 +430,17 @@ def entryOKB (m : MDict) (p : String × J) : Bool := isKeyAt m p.1 || (isDnsAt m
 def levelDomE (S : StrFns) (ms M : MDict) (strict : Bool) (kvs : List (String × J)) : Bool :=
   levelDom S ms M strict kvs && kvs.all (entryOKB ms)
 
+mutual
+/-- every class nested below forbids additional properties in its own body -/
+def closedFs : List Fld → Bool
+  | [] => true
+  | f :: fs => closedF f && closedFs fs
+termination_by structural fs => fs
+def closedF : Fld → Bool
+  | .scalar _ _ => true
+  | .nested _ _ _ ci fs => ci.closedOwn && closedFs fs
+termination_by structural f => f
+end
+
+
 end Typedpy.Mappers
